@@ -61,11 +61,15 @@ if ok:
         rc, out = run(f'git apply {dest}/patch.diff', wt)
         t0 = time.time()
         cmd = f'./bin/gosym -repo {wt} -verif {vf} -spec {vf}/checks/{a.prop.lower()}.json -tier {a.tier} -j 8'
+        import signal
+        proc = subprocess.Popen(cmd, cwd=vf, env=ENV, shell=True, stdout=subprocess.PIPE, stderr=subprocess.STDOUT, text=True, start_new_session=True)
         try:
-            p = subprocess.run(cmd, cwd=vf, env=ENV, shell=True, capture_output=True, text=True, timeout=a.timeout)
-            rcc, outc = p.returncode, p.stdout + p.stderr
-        except subprocess.TimeoutExpired as e:
-            rcc, outc = 124, ''
+            outc, _ = proc.communicate(timeout=a.timeout)
+            rcc = proc.returncode
+        except subprocess.TimeoutExpired:
+            os.killpg(proc.pid, signal.SIGKILL)  # the engine and every solver it started
+            outc, _ = proc.communicate()
+            rcc = 124
         lines = [l.replace(vf, '/verif') for l in outc.splitlines() if l.startswith('VIOLATION') or l.startswith('  harness=') or l.startswith('BROKEN') or l.startswith('UNCONFIRMED') or l.startswith('INCONCLUSIVE')]
         meta['check'] = {'cmd': f'./check {a.prop} --tier {a.tier}  (run as: gosym -repo <scratch worktree of /repo HEAD + patch> -verif <scratch copy of /verif>)', 'exit': rcc, 'wall_s': round(time.time() - t0, 1), 'detected': rcc == 1, 'lines': lines[:12]}
         print(f'[{a.id}] check exit={rcc} detected={rcc==1} in {time.time()-t0:.0f}s')
